@@ -72,13 +72,17 @@ class FixedPointMult(Logic):
         b = self.addIn('b', b)
         r = self.addOut('r', r)
         
-        sa = self.wire('sa', a.getWidth()+b.getWidth())
-        sb = self.wire('sb', a.getWidth()+b.getWidth())
+        # the product is computed on enough bits for the whole result window
+        # [low, low + r.getWidth()) to lie inside a correctly signed value
+        pw = max(a.getWidth()+b.getWidth(), af[2]+bf[2]-rf[2]+r.getWidth())
+        
+        sa = self.wire('sa', pw)
+        sb = self.wire('sb', pw)
         
         SignExtend(self, 'sa', a, sa)
         SignExtend(self, 'sb', b, sb)
                 
-        m = self.wire('m', a.getWidth()+b.getWidth())
+        m = self.wire('m', pw)
         Mul(self, 'm', sa, sb, m)
         
         # Range(self, 'r', m, r.getWidth()+rf[2], rf[2], r)
